@@ -769,4 +769,115 @@ theorem winopsReply_noC (n : Nat) (a b : Bytes) (hn : n ≠ 99) (ha : DigNE a) (
     digit_ne 99 (by decide) b hb.2⟩, by decide⟩
 
 
+
+/-! ### decimal renderings, `int()`, version tuples -/
+
+theorem isDigit_of_char (c : Char) (h : c.isDigit = true) : isDigit c.toNat = true := by
+  simp only [Char.isDigit, Bool.and_eq_true, decide_eq_true_eq] at h
+  simp only [isDigit, Bool.and_eq_true, decide_eq_true_eq, Char.toNat]
+  have h1 := UInt32.le_iff_toNat_le.mp h.1
+  have h2 := UInt32.le_iff_toNat_le.mp h.2
+  simp at h1 h2
+  have h3 : c.toNat = c.val.toNat := rfl
+  omega
+
+theorem decBytes_DigNE (n : Nat) : DigNE (decBytes n) := by
+  constructor
+  · simp [decBytes, Nat.toDigits_ne_nil]
+  · intro x hx
+    simp only [decBytes, List.mem_map] at hx
+    obtain ⟨c, hc, rfl⟩ := hx
+    exact isDigit_of_char c (Nat.isDigit_of_mem_toDigits (by decide) (by decide) hc)
+
+theorem decFold_chars (l : List Char) (acc : Nat) :
+    (l.map Char.toNat).foldl (fun acc d => acc * 10 + (d - 48)) acc = Nat.ofDigitChars 10 l acc := by
+  induction l generalizing acc with
+  | nil => simp [Nat.ofDigitChars]
+  | cons c r ih =>
+    simp only [List.map_cons, List.foldl_cons, Nat.ofDigitChars_cons, ih]
+    congr 1
+    simp [Nat.mul_comm]
+
+theorem decVal_decBytes (n : Nat) : decVal (decBytes n) = n := by
+  simp only [decVal, decBytes, decFold_chars]
+  exact Nat.ofDigitChars_ten_toDigits
+
+
+theorem digitsUnderscore_digits : ∀ (ds : Bytes) (a : Nat), (∀ x ∈ ds, isDigit x = true) →
+    digitsUnderscore ds (some a) false = some (ds.foldl (fun acc d => acc * 10 + (d - 48)) a) := by
+  intro ds
+  induction ds with
+  | nil => intro a _; simp [digitsUnderscore]
+  | cons d r ih =>
+    intro a h
+    have hd : isDigit d = true := h d (by simp)
+    simp only [digitsUnderscore, hd, if_true, Option.getD_some, List.foldl_cons]
+    exact ih _ (fun x hx => h x (by simp [hx]))
+
+theorem dropWhile_head_false (p : Nat → Bool) (l : Bytes) (h : ∀ x ∈ l, p x = false) :
+    l.dropWhile p = l := by
+  cases l with
+  | nil => rfl
+  | cons c r => simp [List.dropWhile, h c (by simp)]
+
+theorem digit_not_space (x : Nat) (h : isDigit x = true) : isSpace x = false := by
+  simp only [isDigit, Bool.and_eq_true, decide_eq_true_eq] at h
+  simp only [isSpace, Bool.or_eq_false_iff, Bool.and_eq_false_iff, decide_eq_false_iff_not, beq_eq_false_iff_ne]
+  omega
+
+theorem pyInt_digits (ds : Bytes) (h : DigNE ds) : pyInt ds = some (decVal ds : Int) := by
+  have hs : ∀ x ∈ ds, isSpace x = false := fun x hx => digit_not_space x (h.2 x hx)
+  have hstrip : stripSpaces ds = ds := by
+    unfold stripSpaces
+    rw [dropWhile_head_false isSpace ds hs,
+      dropWhile_head_false isSpace ds.reverse (fun x hx => hs x (by simpa using hx))]
+    simp
+  obtain ⟨d, r, rfl⟩ : ∃ d r, ds = d :: r := by
+    cases ds with
+    | nil => exact absurd rfl h.1
+    | cons d r => exact ⟨d, r, rfl⟩
+  have hd : isDigit d = true := h.2 d (by simp)
+  have hd' : 48 ≤ d ∧ d ≤ 57 := by simpa [isDigit] using hd
+  have h45 : d ≠ 45 := by omega
+  have h43 : d ≠ 43 := by omega
+  unfold pyInt
+  rw [hstrip]
+  have hr := digitsUnderscore_digits r (0 * 10 + (d - 48)) (fun x hx => h.2 x (by simp [hx]))
+  split
+  · rename_i heq; simp at heq; exact absurd heq.1 h45
+  · rename_i heq; simp at heq; exact absurd heq.1 h43
+  · simp only [digitsUnderscore, hd, if_true, Option.getD_none]
+    rw [hr]
+    simp [decVal]
+
+theorem digits_no_dot (ds : Bytes) (h : ∀ x ∈ ds, isDigit x = true) : 46 ∉ ds :=
+  digit_ne 46 (by decide) ds h
+
+/-- the version tuple of the decimal rendering `a.b.c` is `(a, b, c)` -/
+theorem versionTuple_render (a b c : Nat) :
+    versionTuple (renderVersion a b c) = some [(a : Int), (b : Int), (c : Int)] := by
+  have ha := decBytes_DigNE a
+  have hb := decBytes_DigNE b
+  have hc := decBytes_DigNE c
+  unfold versionTuple renderVersion
+  rw [splitOn_stop 46 _ _ (digits_no_dot _ ha.2), splitOn_stop 46 _ _ (digits_no_dot _ hb.2),
+    splitOn_none 46 _ (digits_no_dot _ hc.2)]
+  simp [allSome, pyInt_digits _ ha, pyInt_digits _ hb, pyInt_digits _ hc, decVal_decBytes]
+
+theorem renderVersion_ne_nil (a b c : Nat) : renderVersion a b c ≠ [] := by
+  simp [renderVersion]
+
+theorem version_ge_konsole (a b c : Nat) :
+    lexGe [(a : Int), (b : Int), (c : Int)] [22, 4, 0] = true ↔ (22 < a ∨ (a = 22 ∧ 4 ≤ b)) := by
+  simp only [lexGe]
+  by_cases ha : a = 22
+  · subst ha
+    by_cases hb : b = 4
+    · subst hb; simp; omega
+    · have : ((b : Int) == 4) = false := by simp; omega
+      simp [this]; omega
+  · have : ((a : Int) == 22) = false := by simp; omega
+    simp [this]; omega
+
+
 end TIV.C12
